@@ -200,6 +200,9 @@ pub fn run(ctx: Ctx) -> ! {
     let mut both = init_peer(1, i_acc);
     both.extend(init_peer(0, i_acc));
     prefixes.push(("both peers initialized", both, depth - 1));
+    // error bookkeeping: a tracked peer that has already reported two errors
+    prefixes.push(("peer 0 tracked, two errors reported", vec![Ev::Include(0), Ev::Error(0), Ev::Error(0)], depth - 1));
+    prefixes.push(("peer 0 initialized, then two errors", [init_peer(0, i_acc), vec![Ev::Error(0), Ev::Error(0)]].concat(), depth - 1));
     let mut st_i = bfs::Stats::default();
     let mut per_prefix = vec![];
     for (name, pre, d) in &prefixes {
